@@ -221,6 +221,14 @@ def rule_guard(ctx, rep):
                 for bl in gb["blocks"]:
                     for s in bl["stmts"]:
                         if s["k"] == "assign" and s["lhs"]["p"] and isinstance(s["lhs"]["p"][-1], dict) and s["lhs"]["p"][-1].get("adt") == F.handle_paths.get("ThinArc"):
+                            if s["rv"]["k"] == "use":
+                                from .. import ptrclass as _pc
+
+                                nf = _pc.Norm(F).norm(symx.expr(F, B, s["rv"]["op"]), {})
+                                while nf[0] == "cast":
+                                    nf = nf[2]
+                                if nf[0] == "stored" and nf[1][0] == "field" and nf[1][1] == ("arg", 1) and _guard_field_kinds(F, guard_drop).get(nf[1][2]) == "Arc" and "opaque" not in str(nf):
+                                    src_ok = True  # (normal form) the pointer stored in the guard's own transient Arc
                             o = B.origin(s["rv"]["op"]) if s["rv"]["k"] == "use" else {"kind": "?"}
                             if o.get("kind") == "call" and _callee(o["term"]) in ("<core::ptr::non_null::NonNull<T>>::cast",):
                                 o2 = B.origin(o["term"]["args"][0])
@@ -247,6 +255,20 @@ def rule_guard(ctx, rep):
                 else:
                     rep.bad("R-GUARD", key + "/guard-drop", "the pointer written back into the ThinArc is not the transient Arc's pointer", F.loc(gb), tag)
     rep.floor("R-GUARD", 2, "guard dropped on both exits; guard destructor retargets")
+
+
+def _guard_field_kinds(F, guard_adt):
+    """{field name: handle kind held (directly, by reference or inside ManuallyDrop)} of a guard type."""
+    a = F.adts.get(guard_adt)
+    kinds = {}
+    if a and a.get("variants"):
+        for f in a["variants"][0]["fields"]:
+            hn = F.handle_name(F.strip_refs(f["ty"]))
+            if hn is None:
+                for x in F.adt_arg_types(f["ty"]):
+                    hn = hn or F.handle_name(x)
+            kinds[f["name"]] = hn
+    return kinds
 
 
 def _unchanged_edge(F, gb, guard_adt, p):
